@@ -310,15 +310,32 @@ def unsubscribe (o token owner : Nat) : M (Except ObsError Unit) := do
 
 /-! ## effects of user code -/
 
+/-- dropping one public `Var` handle (`impl Drop for Var`): the last one queues the var for `break_rc_cycle` at the
+end of the next (or the running) stabilise; `false` when no handle is left -/
+def dropVarHandle (v : Nat) : M Bool := do
+  let vc ← getVar v
+  if vc.handles == 0 then pure false
+  else
+    modVar v fun x => { x with handles := x.handles - 1 }
+    if vc.handles == 1 then modify fun s => { s with deadVars := s.deadVars ++ [v] }
+    pure true
+
+/-- a closure can only write through a `Var` handle it still owns: after `dropvar` its writes are no-ops -/
+def withVarHandle (v : Nat) (act : M Unit) : M Unit := do
+  match (← get).vars[v]? with
+  | some vc => if vc.handles == 0 then pure () else act
+  | none => act
+
 def runEffectBasic (env : Env) (e : Effect) : M Unit := do
   match e with
-  | .setVar v x => discard <| writeVar v (fun _ => x) true
-  | .modifyVar v d => discard <| writeVar v (fun x => x.addInt d 7)
-  | .updateVar v d => discard <| writeVar v (fun x => x.addInt d 7)
-  | .replaceVar v x => do
+  | .dropVar v => discard <| dropVarHandle v
+  | .setVar v x => withVarHandle v (discard <| writeVar v (fun _ => x) true)
+  | .modifyVar v d => withVarHandle v (discard <| writeVar v (fun x => x.addInt d 7))
+  | .updateVar v d => withVarHandle v (discard <| writeVar v (fun x => x.addInt d 7))
+  | .replaceVar v x => withVarHandle v do
     let old ← writeVar v (fun _ => x)
     logEv (.note s!"replace v{v} -> {old.render}")
-  | .replaceWithVar v d => do
+  | .replaceWithVar v d => withVarHandle v do
     let old ← writeVar v (fun x => x.addInt d 7)
     logEv (.note s!"replacewith v{v} -> {old.render}")
   | .readObs o =>
